@@ -103,7 +103,7 @@ Step(ww, r) ==
     [] r.e = "harness_panic" -> V(ww, "PANIC", "the session driver panicked", "")
     [] OTHER              -> ww      \* write, noop, drain, io_dropped: no effect on the world
 
-Init == i = 0 /\ run = -1 /\ w = [InitW(FALSE, <<>>, <<>>, FALSE, "ok", [embedded |-> -1, file |-> -1, hasMime |-> FALSE, mime |-> <<>>, limit |-> 1, embedded_ack |-> 0, file_ack |-> 0, vary |-> FALSE]) EXCEPT !.viol = <<>>] @@ [nhCfg |-> 0]
+Init == i = 0 /\ run = -1 /\ w = [InitW(FALSE, <<>>, <<>>, FALSE, "ok", [embedded |-> -1, file |-> -1, hasMime |-> FALSE, mime |-> <<>>, limit |-> 1, embedded_ack |-> 0, file_ack |-> 0, vary |-> FALSE, ackp |-> FALSE]) EXCEPT !.viol = <<>>] @@ [nhCfg |-> 0]
 
 Next == /\ i < Len(Recs)
         /\ i' = i + 1
